@@ -46,6 +46,12 @@ type crashEngine struct {
 	pendingOpenArgs [][2]string
 	tier            string
 	drain           bool // C11: after recovery remove everything and run the collectors (keys drain=1)
+	// flushput: a Put performed at a named point INSIDE a Flush (in the flushing goroutine: no lock is held at a hook point)
+	injectAt  string
+	injectK   []byte
+	injectV   []byte
+	injected  bool
+	injectRes string
 }
 
 func newCrashEngine() *crashEngine {
@@ -53,6 +59,14 @@ func newCrashEngine() *crashEngine {
 	verifhook.Set(func(name string) {
 		if e.capturing {
 			e.raw = append(e.raw, image{point: name, files: readDirFiles(e.dir)})
+		}
+		if e.injectAt != "" && name == e.injectAt && !e.injected && e.st != nil {
+			e.injected = true
+			if err := e.st.Put(e.injectK, e.injectV); err != nil {
+				e.injectRes = "err"
+			} else {
+				e.injectRes = "ok"
+			}
 		}
 	})
 	return e
@@ -242,6 +256,41 @@ func (e *crashEngine) Exec(op *Op) string {
 	case "open":
 		e.pendingOpenArgs = op.Args
 	}
+	if op.Name == "flushput" {
+		// Store.Flush with a Put of k acknowledged at the named point inside it (e.g. after the primary has been flushed and
+		// before the index pool is swapped): what a writer running next to the flusher does. Every later point of the flush
+		// and of the Put is a crash image.
+		if e.st == nil {
+			return "bad-op"
+		}
+		e.injectK, _ = hex.DecodeString(op.Arg("k"))
+		e.injectV, _ = hex.DecodeString(op.Arg("v"))
+		e.injectAt, e.injected, e.injectRes = op.Arg("at"), false, "not-reached"
+		e.queue = nil // images of an earlier operation that a directed trace did not drain belong to another context
+		pre := image{point: "flushput.begin", files: readDirFiles(e.dir)}
+		e.raw = nil
+		e.capturing = true
+		err := e.st.Flush()
+		e.capturing = false
+		e.injectAt = ""
+		post := image{point: "flushput.end", files: readDirFiles(e.dir)}
+		seq := append([]image{pre}, e.raw...)
+		seq = append(seq, post)
+		e.raw = nil
+		var last string
+		for _, im := range seq {
+			d := dumpFiles(im.files)
+			if d != last {
+				e.queue = append(e.queue, im)
+				last = d
+			}
+		}
+		res := "ok"
+		if err != nil {
+			res = "err:other"
+		}
+		return res + " put=" + e.injectRes + " images=" + strconv.Itoa(len(e.queue))
+	}
 	withFS := op.Name == "flush" || op.Name == "close" || op.Name == "igc" || op.Name == "pgc" || op.Name == "iter" || (op.Name == "open" && e.dir != "")
 	if !withFS {
 		res := e.seqEngine.Exec(op)
@@ -252,6 +301,7 @@ func (e *crashEngine) Exec(op *Op) string {
 	}
 	pre := image{point: op.Name + ".begin", files: readDirFiles(e.dir)}
 	e.raw = nil
+	e.queue = nil // (see flushput)
 	e.capturing = true
 	res := e.seqEngine.Exec(op)
 	e.capturing = false
@@ -477,6 +527,8 @@ type crashGen struct {
 	fsOps   int
 	maxFS   int
 	drain11 bool
+	plain   bool // default profile: the workload may end with a Flush that a Put runs into
+	fpDone  bool
 }
 
 func newCrashGen(r *RNG, tier string, profile string) *crashGen {
@@ -487,7 +539,7 @@ func newCrashGen(r *RNG, tier string, profile string) *crashGen {
 	if drain11 {
 		profile = "c04"
 	}
-	g := &crashGen{inner: newSeqGen(r, tier, profile), tier: tier, drain11: drain11}
+	g := &crashGen{inner: newSeqGen(r, tier, profile), tier: tier, drain11: drain11, plain: profile == "c04" && !drain11}
 	g.inner.kind = "mh"
 	g.inner.maxOps = 10 + r.Intn(25)
 	g.maxFS = 3 + r.Intn(3)
@@ -524,10 +576,28 @@ func (g *crashGen) Next(r *RNG, hist []Op) (Op, bool) {
 			return mkOp("crashnext"), true
 		}
 	}
+	// the last operation of some workloads: a Flush with a Put of a key acknowledged at a point inside it
+	flushPut := func() (Op, bool) {
+		if !g.plain || g.fpDone || !g.inner.isOpen || g.inner.kind != "mh" || g.inner.imm != 0 || len(g.inner.keys) == 0 || !r.Bool(50) {
+			g.fpDone = true
+			return Op{}, false
+		}
+		g.fpDone = true
+		k := g.inner.keys[r.Intn(len(g.inner.keys))]
+		v := make([]byte, 1+r.Intn(12))
+		for i := range v {
+			v[i] = byte(r.Intn(256))
+		}
+		at := []string{"store.commit.primary_done", "primary.flush.swapped", "primary.flush.written", "index.flush.swapped", "store.commit.index_done", "store.flush.stamped"}[r.Intn(6)]
+		return mkOp("flushput", "k", hex.EncodeToString(k), "v", hex.EncodeToString(v), "at", at), true
+	}
+	if g.fpDone {
+		return Op{}, false
+	}
 	for {
 		op, ok := g.inner.Next(r, hist)
 		if !ok {
-			return op, false
+			return flushPut()
 		}
 		// views are not needed here; crash images are the observable
 		if op.Name == "view" || op.Name == "disk" || op.Name == "sizes" || op.Name == "paths" || op.Name == "badsnap" || op.Name == "chunks" || op.Name == "acct" {
@@ -545,7 +615,7 @@ func (g *crashGen) Next(r *RNG, hist []Op) (Op, bool) {
 		}
 		if g.fsOps >= g.maxFS && (op.Name == "flush" || op.Name == "igc" || op.Name == "pgc" || op.Name == "iter") {
 			// budget of crash-explored ops used up: end the workload
-			return Op{}, false
+			return flushPut()
 		}
 		return op, true
 	}
